@@ -308,14 +308,14 @@ func readFaults(data []byte, label string) {
 		name string
 		err  error
 		once bool
-	}{{"unexpected-eof-error", io.ErrUnexpectedEOF, false}, {"closed-pipe-error", io.ErrClosedPipe, false}, {"error-once-then-eof", nil, true}, {"unexpected-eof-once-then-eof", io.ErrUnexpectedEOF, true},
+	}{{"error-once-then-the-data-goes-on", nil, false}, {"unexpected-eof-error", io.ErrUnexpectedEOF, false}, {"closed-pipe-error", io.ErrClosedPipe, false}, {"error-once-then-eof", nil, true}, {"unexpected-eof-once-then-eof", io.ErrUnexpectedEOF, true},
 		{"wrapped-eof-error", fmt.Errorf("read: %w", io.EOF), false}, {"path-error-eof", &fs.PathError{Op: "read", Path: "source", Err: io.EOF}, false},
 		{"wrapped-unexpected-eof-error", fmt.Errorf("read: %w", io.ErrUnexpectedEOF), false}, {"short-buffer-error", io.ErrShortBuffer, false}, {"no-progress-error", io.ErrNoProgress, false}} {
 		for k := 0; k < len(data); k++ {
 			if len(data) > 1500 && k%9 != 0 && k > 64 && k < len(data)-64 {
 				continue // long files: every ninth offset and both ends (the plain error value below takes every offset)
 			}
-			fr := &faultio.FailReader{Data: data, At: k, Err: v.err, Once: v.once}
+			fr := &faultio.FailReader{Data: data, At: k, Err: v.err, Once: v.once, Resume: v.name == "error-once-then-the-data-goes-on"}
 			var err error
 			c := engine.Catch(func() { _, err = smf.ReadFrom(fr) })
 			ctx.Eval()
